@@ -184,4 +184,45 @@ PROPS = {
         {"quick": {"_runs": 400, "responses-decoded": 8000, "mode-form_post": 1500, "mode-fragment": 3000, "mode-query": 3000, "pipeline-completed": 3000}, "thorough": {"_runs": 20000}},
         "Seeded exploration; what the user agent decodes equals what the provider produced and the client sent (code, state, session_state, tokens, error, description), pre-existing query parameters survive, the form has exactly the expected DOM, and fault-free logins complete at the relying party.",
         "DESIGN.md section 4 C11"),
+    "C19": flow(
+        "W-flows",
+        "deterministic simulation used as a configuration sweep: seeded provider configurations (flags, storage capabilities, custom relative/absolute endpoints, static/host/forwarded issuer, both routers) are probed through discovery, every advertised endpoint and every grant type; concurrent discovery for different hosts",
+        "one evaluation = one seeded provider configuration: discovery per issuer host, probe of each advertised endpoint, 7 grant-type probes, a complete code flow with S256 (wrong verifier must fail) using only advertised endpoints, a signed request object when advertised, "
+        "interleaved discovery for two hosts with host-derived issuers, a 14-row issuer-validation table and 5 hostile discovery documents. Apart from the host interleaving this is a configuration sweep (said plainly). distinct = distinct configuration",
+        {"runs": 40, "wall": 90}, {"runs": 20000, "wall": 1200},
+        {"quick": {"_runs": 400, "discovery-fetched": 500, "grant-probes": 3000, "endpoint-probes": 3000, "flows-completed": 500, "issuer-table-rows": 5000, "hostile-documents": 2000, "interleaved-discoveries": 500, "request-object-probes": 100},
+         "thorough": {"_runs": 50000}},
+        "Seeded exploration of configurations; the document's issuer equals the iss of issued tokens, advertised endpoints are issuer-relative (or the configured absolute URL) and served, grant types are advertised iff not answered unsupported_grant_type, advertised S256 and request objects are honoured, bad issuers are rejected at construction, foreign-issuer documents are rejected by client.Discover.",
+        "DESIGN.md section 4 C19"),
+    "C02": flow(
+        "W-flows",
+        "deterministic simulation with fault enumeration: a Byzantine network actor applies every operator of a fixed tamper catalogue to genuinely issued tokens in flight and delivers them to the five real verifier surfaces, under seeded algorithm families and key-set shapes",
+        "one evaluation = one seeded world (router, one of 8 algorithms, one of 7 provider key-set shapes) x 5 surfaces (rp.VerifyIDToken over the real remote key set, /userinfo, /end_session id_token_hint, jwt-bearer assertion, request object) x 42 operators "
+        "(strip, alg none, 18 HMAC-with-public-key encodings, re-sign, kid games, payload edits, truncation, segment counts, alg outside the allow-list, wrong key type, JSON general/flattened serialisation incl. smuggled payloads, embedded jwk). "
+        "distinct non-trivial = distinct (surface, operator, algorithm, key-set shape) delivered",
+        {"runs": 30, "wall": 90}, {"runs": 6000, "wall": 1200},
+        {"quick": {"_runs": 300, "genuine-accepted": 1000, "tampered-rejected": 40000, "hmac": 10000, "json": 4000, "kidless-probes": 20, "_distinct": 3000}, "thorough": {"_runs": 20000}},
+        "Fault enumeration over the stated operator catalogue (complete per world): only the unmodified token (and a kid-less re-signature with exactly one candidate key) may be believed; the claims handed back are those of the signed payload; two fitting keys and no kid must be refused.",
+        "DESIGN.md section 4 C02", level="fault_enumeration",
+        level_note="Trusted: go-jose's primitives. The catalogue is the manipulation space; no schedule dimension."),
+    "C01": flow(
+        "W-time",
+        "deterministic simulation of the clock: tokens minted at t0 are verified by the real rp verifier at t0+delta with delta placed on, one second and three seconds around every time boundary; executable reference predicate with a stated rounding band",
+        "one evaluation = one seeded world (algorithm, key) x 100-200 verifications: verifier configuration (offset, max iat age, max auth age, nonce, acr) and claims (iss, sub, aud, azp, exp, iat, auth_time, nonce, acr, at_hash, wrong key) drawn per case, the simulated clock advanced to the instant of verification. "
+        "The time axis is decided by the simulator; the claim dimensions are seeded generation. non-trivial = acceptances, rejections and boundary placements all occurred",
+        {"runs": 20, "wall": 90}, {"runs": 6000, "wall": 1200},
+        {"quick": {"_runs": 300, "accepted": 5000, "rejected": 20000, "on-a-time-boundary": 5000}, "thorough": {"_runs": 20000}},
+        "Seeded exploration; accept implies every conjunct of OIDC Core 3.1.3.7 holds at the simulated instant, every conjunct holding with more than 2 s margin implies acceptance with unchanged claims; inside the band either answer is admissible.",
+        "DESIGN.md section 4 C01"),
+    "C20": dict(flow(
+        "W-race",
+        "deterministic simulation for the isolation half (invariants on package defaults and caller objects after every step of seeded construction/usage programs) plus seeded concurrent mixes on shared instances under the Go race detector (runtime-scheduled goroutines; happens-before analysis is the oracle)",
+        "one evaluation = one seeded isolation program of 25-45 steps (construct providers with custom/default endpoints, relying parties, resource servers; EndSession, RevokeToken, Userinfo, Discover, device polling) with the invariants checked after every step, "
+        "plus four seeded goroutine mixes (4-8 goroutines from a barrier) on one provider, one relying party, one resource server + key set, and concurrent construction, all in a -race build. distinct = distinct isolation program",
+        {"runs": 12, "wall": 120}, {"runs": 3000, "wall": 1500},
+        {"quick": {"_runs": 150, "isolation-programs": 150, "race-mixes": 600}, "thorough": {"_runs": 10000}},
+        "Isolation: deterministic and replayable. Races: the seed fixes the program, the interleaving is the Go runtime's; a report is a happens-before violation found by the race detector, replayed by re-running the seed under -race (in practice stable, in principle probabilistic).",
+        "DESIGN.md section 4 C20",
+        level_note="Trusted: the Go race detector. The race half does not control the schedule (the simulator's own channels would create the happens-before edges that hide races); stated in DESIGN.md."),
+        race=True),
 }
